@@ -203,6 +203,10 @@ def run(ck, ctx):
         r = I.run(I.func_node(fi), [val, unit])
         v = r.value
         fn = "parse_units"
+        if v is not None and v.op == "Attr" and v.args and v.args[0].op == "Phi":
+            # (a if c else b).value  is  a.value if c else b.value
+            c_, a_, b_ = v.args[0].args
+            v = I.phi(c_, I.mk("Attr", (a_,), v.attr, v.site), I.mk("Attr", (b_,), v.attr, v.site))
         cond, conv, bare = (v.args if v is not None and v.op == "Phi" else (None, None, None))
         while cond is not None and cond.op == "UnaryOp" and cond.attr == "Not":
             cond, conv, bare = cond.args[0], bare, conv
